@@ -511,6 +511,17 @@ func fedPathsD(m *Module, f *ssa.Function, idx, depth int) map[string][]fedInfo 
 						}
 					}
 				}
+			case *ssa.MakeSlice:
+				// names := make([]T, n); names[i] = …
+				for _, r := range *y.Referrers() {
+					if ia, ok := r.(*ssa.IndexAddr); ok {
+						for _, rr := range *ia.Referrers() {
+							if st, ok := rr.(*ssa.Store); ok && st.Addr == ssa.Value(ia) {
+								visit(st.Val, d+1)
+							}
+						}
+					}
+				}
 			case *ssa.Slice:
 				visit(y.X, d+1)
 			case *ssa.Convert:
